@@ -84,6 +84,56 @@ func c16Cell(t *testing.T, cause, cond string, order int, will, clean bool, seed
 			P.PauseReading()
 			flood(P, "to/x", 16384+3*3010+8192)
 			flood(X, "to/p", 16384+3*3010+8192)
+		case "in-full-pipelined":
+			// P's processor is parked on a delivery to X (not reading); the packet right behind the
+			// blocked PUBLISH ends P's connection, and more traffic behind it keeps P's inbound ring full
+			// with P's receiver parked for space. Then X reads again: nobody holds P up any more.
+			if w.sink == nil {
+				return
+			}
+			X.PauseReading()
+			base := w.sink.count("proc.handled", "P")
+			blocked := false
+			for k := 1; k <= 12; k++ {
+				P.SendPacket(&rc.Packet{Type: rc.PUBLISH, Topic: []byte("to/x"), Payload: spec.MakePayload(uids.next(), 0, 3000)})
+				settle()
+				if w.sink.count("proc.handled", "P")-base < k {
+					blocked = true
+					break
+				}
+			}
+			if !blocked {
+				out.Inconclusive("c16: the publisher's processor did not block", params)
+				return
+			}
+			if cause == "disconnect" {
+				P.SendPacket(&rc.Packet{Type: rc.DISCONNECT})
+			} else {
+				P.Send([]byte{0xf0, 0x00})
+			}
+			junk := []int{3000, 1000, 5000, 200}[order]
+			for sent := 0; sent < 4*16384; sent += junk + 12 {
+				P.SendPacket(&rc.Packet{Type: rc.PUBLISH, Topic: []byte("to/nobody"), Payload: spec.MakePayload(uids.next(), 0, junk)})
+			}
+			settle()
+			if P.Closed() || w.sink.count("stop.begin", "P") != 0 {
+				out.Inconclusive("c16: the publisher ended before the subscriber resumed", params)
+				return
+			}
+			X.ResumeReading()
+			settle()
+			if n := w.sink.count("stop.done", "P"); n != 1 {
+				var where []string
+				for _, g := range libGoroutines() {
+					where = append(where, g.libTop()+":"+g.state)
+				}
+				sort.Strings(where)
+				fail("c16:teardown-incomplete:"+strings.Join(uniq(where), "+"), fmt.Sprintf("connection P sent its %s behind a PUBLISH whose delivery was held up by X; X is reading again and every goroutine is parked, yet P has %d teardown-finished events (teardown begun: %d); library goroutines: %v", cause, n, w.sink.count("stop.begin", "P"), uniq(where)))
+				X.Close()
+				P.Close()
+				return
+			}
+			out.Count("c16.pipelined_cells", 1)
 		}
 		settle()
 		blockedX := cond != "idle"
@@ -145,7 +195,7 @@ func c16Cell(t *testing.T, cause, cond string, order int, will, clean bool, seed
 					// P's inbound ring is full: it cannot get another packet through; it ends by closing
 					how = "abrupt"
 				}
-				if cond == "cross-blocked" && (how == "disconnect" || how == "protocol-error") {
+				if (cond == "cross-blocked" || cond == "in-full-pipelined") && (how == "disconnect" || how == "protocol-error") {
 					how = "abrupt"
 				}
 				if cond == "out-full" && c == P && (how == "disconnect" || how == "protocol-error") {
@@ -181,7 +231,11 @@ func c16Cell(t *testing.T, cause, cond string, order int, will, clean bool, seed
 				}
 			}
 			wantX, wantP := 1, 1
-			if cause == "disconnect" {
+			if cond == "in-full-pipelined" {
+				if cause == "disconnect" {
+					wantP = 0
+				}
+			} else if cause == "disconnect" {
 				if order == 0 && (cond == "idle" || cond == "out-full" || cond == "in-full") {
 					wantX = 0 // X ended by DISCONNECT
 				}
@@ -260,8 +314,15 @@ func TestC16(t *testing.T) {
 	reps := pick(1, 4)
 	for rep := 0; rep < reps; rep++ {
 		for _, cause := range c16Causes {
-			for _, cond := range c16Conds {
-				for order := 0; order < 2; order++ {
+			for _, cond := range append(append([]string{}, c16Conds...), "in-full-pipelined") {
+				norder := 2
+				if cond == "in-full-pipelined" {
+					if cause != "disconnect" && cause != "protocol-error" {
+						continue
+					}
+					norder = 4 // here: four sizes of the traffic behind the ending packet
+				}
+				for order := 0; order < norder; order++ {
 					for _, will := range []bool{false, true} {
 						for _, clean := range []bool{true, false} {
 							i++
